@@ -294,8 +294,14 @@ def run_check(pid, spec, tier, seed, scratch, args, t0):
     ev = dict(property_id=pid, tier=tier, seed=seed, level=spec.get("level", "exploration"), coverage=cov,
               assumptions=spec.get("assumptions", []), wall_s=round(wall, 2), violations=len(violations),
               known_findings_reported=[l for l in known_lines])
-    os.makedirs(os.path.join(VERIF, "evidence"), exist_ok=True)
-    with open(os.path.join(VERIF, "evidence", pid + ".json"), "w") as f:
+    # evidence/ describes runs against /repo itself with nothing but the registered knobs; development runs (another tree
+    # through VF_REPO, scaled case counts, selected parts, survey mode, forced templates) are written elsewhere
+    evdir = os.path.join(VERIF, "evidence")
+    dev = vfbuild.REPO != "/repo" or args.scale != 1.0 or args.parts or any(k in os.environ for k in ("VF_SURVEY", "VF_WIP", "VF_FORCE_STORM", "VF_FORCE_PARK", "VF_FAIL_ON", "VF_PLAN_BUDGET_MS", "VF_TQ_MS"))
+    if dev:
+        evdir = os.path.join(tempfile.gettempdir(), "vf_dev_evidence")
+    os.makedirs(evdir, exist_ok=True)
+    with open(os.path.join(evdir, pid + ".json"), "w") as f:
         json.dump(ev, f, indent=1, sort_keys=True)
         f.write("\n")
 
